@@ -132,6 +132,24 @@ func (tx *Transaction) UseColor(useColor bool) {
 	tx.Flags.SetColor(useColor)
 }
 
+type operationContextKey struct{}
+
+// operationInProgress reports whether ctx comes from a statement that is holding operationMutex.
+func operationInProgress(ctx context.Context) bool {
+	return ctx.Value(operationContextKey{}) != nil
+}
+
+// lockOperation locks operationMutex and returns the function to unlock it. Everything that is evaluated until
+// then has to receive the returned context: a statement in a user defined function that is called from there
+// could only wait for the mutex forever, so that it is rejected instead.
+func (tx *Transaction) lockOperation(ctx context.Context, expr parser.Expression) (context.Context, func(), error) {
+	if operationInProgress(ctx) {
+		return ctx, nil, NewOperationInProgressError(expr)
+	}
+	tx.operationMutex.Lock()
+	return context.WithValue(ctx, operationContextKey{}, true), tx.operationMutex.Unlock, nil
+}
+
 func (tx *Transaction) Commit(ctx context.Context, scope *ReferenceScope, expr parser.Expression) error {
 	tx.operationMutex.Lock()
 	defer tx.operationMutex.Unlock()
